@@ -190,25 +190,8 @@ def run(ctx):
                             mod.rel,
                             n.lineno,
                         )
-    for q in ("Scheduler._resolve_job_main_thread", "Scheduler._reject_job_main_thread"):
-        fn = m.func(q)
-        cfg = CFG(fn)
-        jv = fn.args.args[1].arg
-        ctxvars = _vars_assigned_from(fn, f"{jv}.get_context()")
-        ends = [cfg.node_of(c) for c in calls_in(fn, shallow=True) if call_name(c) == "self.backend.record_job_end"]
-        tagcalls = [c for c in calls_in(fn, shallow=True) if call_name(c) == "self.backend.record_call_node_context"]
-        if not ends:
-            raise AnalysisError(f"{q}: record_job_end not found", q)
-        good_nodes = set()
-        for c in tagcalls:
-            args_ok = len(c.args) >= 3 and src(c.args[0]) == f"{jv}.call_hash" and src(c.args[1]) == f"{jv}.context_hash" and src(c.args[2]) in ctxvars
-            if args_ok:
-                good_nodes.add(cfg.node_of(c))
-        for t in cfg.nodes:
-            if t.kind == "test" and isinstance(t.ast, ast.Name) and t.ast.id in ctxvars:
-                good_nodes.update(cfg.edge_nodes(t, "F"))
-        ok = bool(tagcalls) and all(cfg.must_pass(cfg.entry, good_nodes, targets=[e]) for e in ends)
-        r4.check(ok, f"{m.rel}:{q}:context-tag", "a provenance-recording path reaches record_job_end without recording the context tag for a non-empty context", m.rel, fn.lineno)
+    for construct, ok, msg, rel, line in context_tag_obligations(repo):
+        r4.check(ok, construct, msg, rel, line)
     # ---- C05.5 the context tag is durable no later than the call node it qualifies ---------------
     # A call node without a context tag is, for every reader (C05.2), a context-free result.  If the node is committed by one backend call and
     # the tag by a later one, a crash (or an exhausted retry) between the two leaves exactly that: a result computed under a context that every
@@ -302,3 +285,55 @@ def _is_negated_exists(e: ast.AST) -> bool:
         if isinstance(n, ast.Call) and last_attr(n) in ("not_", "notin_", "not_in", "isnot", "is_not"):
             return True
     return False
+
+
+def context_tag_obligations(repo):
+    """Both finalisers: every path that reaches record_job_end with a non-empty context has recorded the context tag of the job's call node -- directly
+    (`self.backend.record_call_node_context(job.call_hash, job.context_hash, <context>)`) or through a Scheduler helper that does so for its job
+    parameter -- and at that point job.call_hash is already set (assigned on the path, or tested truthy), because a helper/ call handed a missing
+    call hash tags nothing.  Readers of the same-execution (CSE) and ultimate caches filter call nodes by this tag (C05.2), so a call node without
+    it is invisible to equal calls under the same context (they run again, C06) and visible to context-free ones (C05).
+    Yields (construct, ok, message, rel, line)."""
+    m = repo.mod(SCHED)
+    out = []
+    for q in ("Scheduler._resolve_job_main_thread", "Scheduler._reject_job_main_thread"):
+        fn = m.func(q)
+        cfg = CFG(fn)
+        jv = fn.args.args[1].arg
+        ctxvars = _vars_assigned_from(fn, f"{jv}.get_context()")
+        ends = [cfg.node_of(c) for c in calls_in(fn, shallow=True) if call_name(c) == "self.backend.record_job_end"]
+        if not ends:
+            raise AnalysisError(f"{q}: record_job_end not found", q)
+        tag_nodes = []
+        for c in calls_in(fn, shallow=True):
+            d = call_name(c) or ""
+            if d == "self.backend.record_call_node_context":
+                if len(c.args) >= 3 and src(c.args[0]) == f"{jv}.call_hash" and src(c.args[1]) == f"{jv}.context_hash" and src(c.args[2]) in ctxvars:
+                    tag_nodes.append((cfg.node_of(c), True))
+            elif d.startswith("self.") and d.count(".") == 1 and c.args and src(c.args[0]) == jv:
+                helper = m.funcs.get(f"Scheduler.{d[5:]}")
+                if helper is not None and len(helper.args.args) >= 2:
+                    hp = helper.args.args[1].arg
+                    hctx = _vars_assigned_from(helper, f"{hp}.get_context()")
+                    for hc in calls_in(helper, shallow=True):
+                        if call_name(hc) == "self.backend.record_call_node_context" and len(hc.args) >= 3 and src(hc.args[0]) == f"{hp}.call_hash" and src(hc.args[1]) == f"{hp}.context_hash" and (src(hc.args[2]) in hctx or src(hc.args[2]) == f"{hp}.get_context()"):
+                            tag_nodes.append((cfg.node_of(c), False))
+        # call_hash definitely set at the tag node
+        sets = [n for n in cfg.nodes if n.kind == "stmt" and isinstance(n.ast, ast.Assign) and any(src(t) == f"{jv}.call_hash" for t in n.ast.targets)]
+        truthy = [e for t in cfg.nodes if t.kind == "test" and isinstance(t.ast, ast.expr) and src(t.ast) == f"{jv}.call_hash" for e in cfg.edge_nodes(t, "T")]
+        good_nodes = set()
+        late = []
+        for node, direct in tag_nodes:
+            if cfg.must_pass(cfg.entry, set(sets) | set(truthy), targets=[node]):
+                good_nodes.add(node)
+            else:
+                late.append(node)
+        for t in cfg.nodes:
+            if t.kind == "test" and isinstance(t.ast, ast.Name) and t.ast.id in ctxvars:
+                good_nodes.update(cfg.edge_nodes(t, "F"))
+        ok = bool(tag_nodes) and all(cfg.must_pass(cfg.entry, good_nodes, targets=[e]) for e in ends)
+        why = "a provenance-recording path reaches record_job_end without recording the context tag for a non-empty context"
+        if late:
+            why += f" (the tag is requested at line {late[0].lineno}, before {jv}.call_hash is assigned on that path, so nothing is tagged)"
+        out.append((f"{m.rel}:{q}:context-tag", ok, why, m.rel, fn.lineno))
+    return out
